@@ -598,8 +598,27 @@ def clip(a, a_min=None, a_max=None, out=None, **k):
     return r
 
 
+def _nonneg_square(v):
+    """square of a value known to be >= 0 (a norm, or a concrete non-negative number), else None"""
+    from .scalars import NormVal
+    if isinstance(v, NormVal):
+        return v.sq
+    if isinstance(v, (int, float, Fraction, _np.integer, _np.floating)) and not isinstance(v, (bool, _np.bool_)) and v >= 0:
+        q = _frac_of(v)
+        return R(q=q * q)
+    if isinstance(v, R) and v.q is not None and v.q >= 0:
+        return R(q=v.q * v.q)
+    return None
+
+
 def _where3(c, a, b):
     if isinstance(c, SB):
+        from .scalars import NormVal
+        if isinstance(a, NormVal) or isinstance(b, NormVal):
+            # where(cond, 1.0, |b|) and the like stay norms that remember their square (compared on squares, no SQRT)
+            sa, sb = _nonneg_square(a), _nonneg_square(b)
+            if sa is not None and sb is not None:
+                return NormVal.make(ite(c, sa, sb))
         return ite(c, a, b)
     return a if c else b
 
